@@ -41,6 +41,8 @@ RULE = (
     'and keyword values. Non-trivial = at least two rate groups non-empty and '
     'an array default, or wrap depth >= 1, or more than 16 lagged slots. '
     'Distinct by sha1 of the case.')
+RULE += ' ' + (
+    'Prepended parameters (never controls) may carry any default (nested tuples, strings).')
 ASSUMPTIONS = [
     'rates entries align with the parameters that follow the prepended ones '
     '(as in SuperCollider\'s addControlsFromArgsOfFunc).',
